@@ -27,4 +27,16 @@ def handle (payload : List Sx) : Sx :=
     .list ((udfToGo ud).map declSx)
   | _ => .atom "bad-line"
 
+/-- stream c03.record: name (tparams) ((field (ty x<go type>))…) → (struct name ntparams (field x<type>)…) -/
+def handleRecord (payload : List Sx) : Sx :=
+  match payload with
+  | [.atom name, .list tps, .list fields] =>
+    let fs := fields.filterMap (fun f => match f with | .list [.atom fname, p] => some (fname, payloadOf p) | _ => none)
+    match rdfToGo (RecordDef.mk name (tps.filterMap Sx.asAtom) fs) with
+    | .struct n tparams gfs =>
+      .list (.atom "struct" :: .atom n :: .atom (toString tparams.length) ::
+        gfs.map (fun f => .list [.atom f.1, .atom (Sx.encStr f.2)]))
+    | _ => .atom "bad-decl"
+  | _ => .atom "bad-line"
+
 end Oracle.Decl
